@@ -52,6 +52,7 @@ func checkC08(c *Ctx, r *Report) {
 	borrow(c, r, c04R2, "C04.R2.gate", "C08.R2.pack-gate", 2, "PackBuffer decides whether to compress with the same predicate Len uses (Compress && isCompressible())", nil, "Len() counts compression pointers Pack never writes: it is smaller than the packed message")
 	hintWidth(c, r, "C08.R1.hint-width")
 	windowGuardsAgree(c, r, "C08.R1.window-guards")
+	lenSearchKey(c, r, "C08.R2.len-search-key", "Len() is smaller than the packed message for names spelled in two letter cases")
 }
 
 func c08Header(c *Ctx, r *Report) {
